@@ -811,7 +811,26 @@ fn row_modes(ctx: &mut Ctx, idx: usize, r: &mut Rng, fixed_w: Option<u16>) {
         ctx.case(family, "", "skip", serde_json::json!({"why": "final rows do not fit the terminal (row modes do not clip)", "case": info}));
         return;
     }
-    let want = if plain_text.is_empty() { expected_rows(w as usize, h as usize, "").into_iter().map(|_| " ".repeat(w as usize)).collect() } else { expected_rows(w as usize, h as usize, &plain_text) };
+    if plain_text.is_empty() {
+        ctx.case(family, "", "skip", serde_json::json!({"why": "no final rows", "case": info}));
+        return;
+    }
+    // F-level: the bytes are what the model's renderer writes for the same frames
+    let frames = split_frames(&text);
+    if (w as usize) >= PLACEHOLDER_LEN {
+        match model_render(ctx, w as usize, h as usize, &frames) {
+            Some((mbytes, _)) if mbytes == tty.bytes => {}
+            _ => {
+                ctx.case(family, &key, "fdis", serde_json::json!({"what": "the renderer's bytes are not reset-sequence + frame for each frame", "impl_hex": enc::hexb(&tty.bytes), "case": info}));
+                return;
+            }
+        }
+        if frames.last() != Some(&plain_text) || frames[..frames.len() - 1].iter().any(|f| f != "data will be output once the computation is complete...\n") {
+            ctx.case(family, &key, "viol", serde_json::json!({"class": "C16/row-modes-frames", "what": "frames are not placeholder lines followed by the rows a non-terminal run prints", "frames": frames, "case": info}));
+            return;
+        }
+    }
+    let want = expected_rows(w as usize, h as usize, &plain_text);
     let rows_on_screen = mine.map(|x| x.2).unwrap_or_default();
     if rows_on_screen != want {
         let first_bad = (0..rows_on_screen.len().min(want.len())).find(|i| rows_on_screen[*i] != want[*i]).unwrap_or(0);
@@ -917,6 +936,9 @@ fn fixed(ctx: &mut Ctx) {
 pub fn check(ctx: &mut Ctx) {
     if ctx.shard == 0 {
         fixed(ctx);
+        // witness of the open finding: the 55-character placeholder on a 30-column terminal wraps
+        let mut r0 = ctx.rng.fork();
+        row_modes(ctx, 0, &mut r0, Some(30));
         // `* | json | count` whose input starts after the first 50 ms refresh: `No data`, then the table
         let mut r = ctx.rng.fork();
         let input = b"{\"k\":\"a\"}\n{\"k\":\"b\"}\n".to_vec();
